@@ -332,8 +332,12 @@ func runC01(r *ev.Run) {
 	g := rng.New(r.Seed, "C01", fmt.Sprint(r.Batch))
 	idx := 0
 	for _, sf := range stacks {
+		onlySkew := false
 		if sf.Heavy && !isThorough(r) {
-			continue
+			if sf.Name != "quic(mem)" {
+				continue
+			}
+			onlySkew = true // the quick pass runs quic only in its skewed-MTU configuration
 		}
 		reps := pick(r, 1, 3)
 		// reassembling layers get extra runs over a transport with a very short receive queue: its buffers are recycled
@@ -342,10 +346,14 @@ func runC01(r *ev.Run) {
 		if sf.Name == "frag(mem)" || sf.Name == "mbapp(mem)" {
 			shortq = pick(r, 2, 4)
 		}
-		for rep := 0; rep < reps+shortq; rep++ {
+		skewed := 0
+		if sf.Name == "frag(mem)" || sf.Name == "mbapp(mem)" || sf.Name == "quic(mem)" {
+			skewed = 1
+		}
+		for rep := 0; rep < reps+shortq+skewed; rep++ {
 			idx++
 			cg := g.Fork()
-			if !r.Mine(idx) {
+			if !r.Mine(idx) || (onlySkew && rep < reps+shortq) {
 				continue
 			}
 			caseID := fmt.Sprintf("%s-%d", sf.Name, rep)
@@ -353,7 +361,13 @@ func runC01(r *ev.Run) {
 				continue
 			}
 			so := stackOptsFor(sf.Name, cg)
-			if rep >= reps {
+			if rep >= reps+shortq {
+				// peers that disagree about the limit: node i is configured with MTU>>i
+				so.skew = true
+				if sf.Name == "quic(mem)" {
+					so.outerMTU = 8192
+				}
+			} else if rep >= reps {
 				so.queueLen = []int{4, 8, 2, 16}[(rep-reps)%4]
 			}
 			st, err := sf.Build(so)
@@ -368,8 +382,8 @@ func runC01(r *ev.Run) {
 			if d == 0 {
 				r.Inconclusive("no delivery observed on " + st.Name)
 			}
-			if rep == 0 || rep == reps {
-				r.Sample(map[string]any{"stack": st.Name, "mtu": st.Nodes[0].MTU(), "inner_mtu": st.InnerMTU, "queue_len": so.queueLen, "senders_per_node": cfg.senders, "receivers_per_node": cfg.receivers, "delivered": d})
+			if rep == 0 || rep >= reps {
+				r.Sample(map[string]any{"stack": st.Name, "mtu": st.Nodes[0].MTU(), "inner_mtu": st.InnerMTU, "queue_len": so.queueLen, "skewed_mtu": so.skew, "senders_per_node": cfg.senders, "receivers_per_node": cfg.receivers, "delivered": d})
 			}
 		}
 	}
